@@ -38,6 +38,7 @@ type Case struct {
 	Inputs [][]int `json:"inputs"`
 	Moves  []Move  `json:"moves"`
 	Calls  []int   `json:"calls"`
+	CallAt []int   `json:"call_at,omitempty"`
 	Gen    string  `json:"gen"` // how the schedule was produced
 }
 
@@ -89,7 +90,7 @@ func runCase(t *testing.T, c *Case, sch scheduler, maxMoves int, drain bool, emi
 		for i := range ins {
 			ins[i] = make(chan int, c.ICaps[i])
 		}
-		rec := &calls{gated: c.Stage.Kind == "fork" && c.Stage.Gate, gates: map[int]chan struct{}{}}
+		rec := &calls{gated: c.Stage.Kind == "fork" && c.Stage.Gate, gates: map[int]chan struct{}{}, start: start}
 		outs := build(ctx, c.Stage, ins, rec)
 		c.OCaps = nil
 		for _, o := range outs {
@@ -271,6 +272,7 @@ func runCase(t *testing.T, c *Case, sch scheduler, maxMoves int, drain bool, emi
 			}
 		}
 		c.Calls = append([]int(nil), rec.seen...)
+		c.CallAt = append([]int(nil), rec.at...)
 		emit() // persisted before the cleanup: a deadlocked bubble or a late panic kills the process
 
 		// cleanup so that the bubble can end: cancel, release gates, close inputs, drain outputs
